@@ -34,12 +34,12 @@ func (o Obligation) Key() string { return o.Rule + "|" + o.Construct }
 // Rule is one repository-specific check.
 type Rule struct {
 	ID       string
-	Doc      string         // the rule text, quoted in evidence
-	Min      int            // anti-vacuity: minimum number of obligations
-	Thorough bool           // only in the thorough tier
-	Arm64    bool           // also run on the GOARCH=arm64 program in the thorough tier
-	Run      func(c *Ctx)   // evaluates on c.Prog
-	SelfTest func() error   // optional: positive example that must be flagged
+	Doc      string       // the rule text, quoted in evidence
+	Min      int          // anti-vacuity: minimum number of obligations
+	Thorough bool         // only in the thorough tier
+	Arm64    bool         // also run on the GOARCH=arm64 program in the thorough tier
+	Run      func(c *Ctx) // evaluates on c.Prog
+	SelfTest func() error // optional: positive example that must be flagged
 }
 
 // Ctx is handed to a rule.
@@ -245,20 +245,20 @@ func (r *Result) Finish(verifDir string, findings []Finding) int {
 	ev := Evidence{
 		PropertyID: r.Property, Tier: r.Tier, Seed: r.Seed, Level: "other",
 		Coverage: map[string]interface{}{
-			"explanation": r.Explanation,
-			"obligations": len(r.Obligations),
-			"discharged":  discharged,
-			"undecided":   len(undec),
+			"explanation":            r.Explanation,
+			"obligations":            len(r.Obligations),
+			"discharged":             discharged,
+			"undecided":              len(undec),
 			"known_findings_matched": kf,
-			"rules":              rules,
-			"samples":            samples,
-			"packages_loaded":    r.Packages,
-			"files_parsed":       r.Files,
-			"units_analysed":     len(r.Funcs),
-			"units":              funcs,
-			"checker_cmd":        "/verif/bin/check " + r.Property + " " + r.Tier,
-			"trusted_base":       []string{"go/types type checker", "golang.org/x/tools v0.29.0 (go/packages, go/cfg, go/ssa, vta)", "the rule tables in /verif/sa/rules"},
-			"framework_errors":   r.Errors,
+			"rules":                  rules,
+			"samples":                samples,
+			"packages_loaded":        r.Packages,
+			"files_parsed":           r.Files,
+			"units_analysed":         len(r.Funcs),
+			"units":                  funcs,
+			"checker_cmd":            "/verif/bin/check " + r.Property + " " + r.Tier,
+			"trusted_base":           []string{"go/types type checker", "golang.org/x/tools v0.29.0 (go/packages, go/cfg, go/ssa, vta)", "the rule tables in /verif/sa/rules"},
+			"framework_errors":       r.Errors,
 		},
 		Assumptions: r.Assumptions,
 		WallS:       time.Since(r.Start).Seconds(),
